@@ -51,8 +51,11 @@ check('C06', 'proof',
       'Proved for all inputs: semantics_call passes the rule AST and declared parameters to the action found for the rule name and returns ITS result, '
       'returns the node unchanged without an action; FailedSemantics becomes a memoized parse failure in rule_call (so alternatives are tried); every '
       'other exception class propagates unchanged through expcall/isolate/statescope/option/optional/if_/closure/func_call/rule_call/call (implicit '
-      'no-escape / propagate obligations); the stack is back at its entry depth on every TatSu exit of rule_call.',
-      'Trusted: pyvc, z3, action lookup by reflection (assumed contract + bounded run), boundcall.',
+      'no-escape / propagate obligations); the stack is back at its entry depth on every TatSu exit of rule_call; the memo table never holds a raw '
+      'FailedSemantics and the failure that is raised is the one that is remembered. Bounded (never counted as proved): the semantics matrix of bC06 -- '
+      'identity / tagging / _default / vetoing / raising actions on 7 grammars and their @nomemo twins x all inputs up to length 4, model and generated parser, '
+      'against the documented semantics -- and histories on reused parsers.',
+      'Trusted: pyvc, z3, boundcall; the action lookup is proved on the attribute-table view of the semantics object.',
       'contract-based deductive verification (pyvc: exceptional postconditions) + bounded semantics matrix', '3/C06')
 check('C11', 'proof',
       'Proved for all inputs: validate_is_not_keyword raises KeywordError (a FailedParse) exactly when the case-folded text of the value is a keyword; '
